@@ -1,5 +1,498 @@
-(* C14 proofs *)
+(* C14 proofs.  Structure:
+     1. facts about the call log (k_done) and the script,
+     2. [Moved]: what one or several stream calls did to the stream and to host memory,
+     3. specs of one call, of retry_eintr, of the exact loop on scripted streams (induction on fuel,
+        for scripts of any length),
+     4. the address map (idx_of / flat_write / flat_read) on contiguous runs,
+     5. slice, region and guest-memory operations,
+     6. the checker on the model. *)
 From VM Require Import Prelude.MachInt Prelude.Outcome Prelude.Tok Prelude.C1314List Impl.Io Impl.IoGuest Spec.C14 Suite.C14.
 
 Lemma amount_le_lemma : forall b len, amount b len <= len.
 Proof. intros [] len; cbn [amount]; lia. Qed.
+
+(* ------------------------------------------------------------------ 1. logs *)
+Definition Clean (d : list beh) : Prop := existsb is_hard d = false /\ is_eintr (last d Zero) = false.
+Definition HardEnd (d : list beh) : Prop := is_hard (last d Zero) = true /\ existsb is_hard (removelast d) = false.
+(* what the checker demands of the log and the result kind *)
+Definition LogRes (d : list beh) (rk : N) : Prop :=
+  rk <> 4 /\ is_eintr (last d Zero) = false /\
+  (if existsb is_hard d then rk = 5 /\ existsb is_hard (removelast d) = false else rk <> 5).
+
+Lemma last_snoc {A} (l : list A) x d : last (l ++ [x]) d = x.
+Proof. induction l as [|a l IH]; [reflexivity|]. cbn [app]. destruct (l ++ [x]) eqn:E; [destruct l; discriminate|]. cbn [last]. exact IH. Qed.
+Lemma removelast_snoc {A} (l : list A) x : removelast (l ++ [x]) = l.
+Proof. rewrite removelast_app by discriminate. cbn [removelast]. apply app_nil_r. Qed.
+Lemma existsb_hard_eintrs j : existsb is_hard (repeat Eintr j) = false.
+Proof. induction j; [reflexivity|]. cbn [repeat existsb is_hard orb]. exact IHj. Qed.
+
+Lemma Clean_nil : Clean [].
+Proof. split; reflexivity. Qed.
+Lemma Clean_step d j b : Clean d -> is_eintr b = false -> is_hard b = false -> Clean (d ++ repeat Eintr j ++ [b]).
+Proof.
+  intros [H1 _] Hb Hh. split.
+  - rewrite !existsb_app, H1, existsb_hard_eintrs. cbn [existsb orb]. rewrite Hh. reflexivity.
+  - rewrite app_assoc, last_snoc. exact Hb.
+Qed.
+Lemma HardEnd_step d j : Clean d -> HardEnd (d ++ repeat Eintr j ++ [HardErr]).
+Proof.
+  intros [H1 _]. split.
+  - rewrite app_assoc, last_snoc. reflexivity.
+  - rewrite app_assoc, removelast_snoc, existsb_app, H1, existsb_hard_eintrs. reflexivity.
+Qed.
+Lemma LogRes_clean d rk : Clean d -> rk <> 4 -> rk <> 5 -> LogRes d rk.
+Proof. intros [H1 H2] H4 H5. unfold LogRes. rewrite H1. auto. Qed.
+Lemma LogRes_hard d : HardEnd d -> LogRes d 5.
+Proof.
+  intros [H1 H2]. unfold LogRes. split; [lia|]. split.
+  - destruct (last d Zero); try discriminate. reflexivity.
+  - assert (E : existsb is_hard d = true).
+    { destruct d as [|x d] using rev_ind; [discriminate|]. rewrite last_snoc in H1.
+      rewrite existsb_app. cbn [existsb]. rewrite H1. rewrite orb_true_r. reflexivity. }
+    rewrite E. auto.
+Qed.
+
+(* the log is the script followed by Zeros *)
+Definition LogInv (sc : list beh) (s : sstream) : Prop :=
+  exists z, k_done s ++ k_script s = sc ++ repeat Zero z.
+Lemma LogInv_advance sc s src sink : LogInv sc s -> LogInv sc (advance s src sink).
+Proof.
+  intros [z H]. unfold LogInv, advance, next_beh. cbn [k_done k_script].
+  destruct (k_script s) as [|b t] eqn:E; cbn [hd tl].
+  - exists (S z). rewrite app_nil_r in *. rewrite H.
+    replace (S z) with (z + 1)%nat by lia. rewrite repeat_app. cbn [repeat]. rewrite app_assoc. reflexivity.
+  - exists z. rewrite <- app_assoc. cbn [app]. exact H.
+Qed.
+Lemma firstn_repeat_zero (n z : nat) : (n <= z)%nat -> firstn n (repeat Zero z) = repeat Zero n.
+Proof.
+  revert z; induction n as [|n IH]; intros z Hz; [reflexivity|].
+  destruct z as [|z]; [lia|]. cbn [repeat firstn]. f_equal. apply IH. lia.
+Qed.
+Lemma firstn_script_zeros (sc : list beh) : forall n z z', (n <= length sc + z)%nat -> (n <= length sc + z')%nat ->
+  firstn n (sc ++ repeat Zero z) = firstn n (sc ++ repeat Zero z').
+Proof.
+  induction sc as [|b sc IH]; intros n z z' H1 H2.
+  - cbn [app length] in *. rewrite !firstn_repeat_zero by lia. reflexivity.
+  - destruct n as [|n]; [reflexivity|]. cbn [app firstn]. f_equal. apply IH; cbn [length] in *; lia.
+Qed.
+Lemma LogInv_calls_made sc s : LogInv sc s -> calls_made sc (nlen (k_done s)) = k_done s.
+Proof.
+  intros [z H]. unfold calls_made, nlen. rewrite Nat2N.id.
+  assert (Hl : (length (k_done s) <= length sc + z)%nat).
+  { apply (f_equal (@length beh)) in H. rewrite !app_length, repeat_length in H. lia. }
+  rewrite (firstn_script_zeros sc _ _ z) by lia. rewrite <- H.
+  rewrite firstn_app, Nat.sub_diag, firstn_all. cbn [firstn]. apply app_nil_r.
+Qed.
+
+(* ------------------------------------------------------------------ 2. Moved *)
+Definition callb (rd : bool) : callT sstream := if rd then sr_call else sw_call.
+
+(* k bytes went from the reader to host memory at index base (rd) / from there to the writer *)
+Definition Moved (rd : bool) (s : sstream) (m : list N) (base k : N) (s' : sstream) (m' : list N) : Prop :=
+  if rd then k_src s' = ndrop k (k_src s) /\ k <= nlen (k_src s) /\ m' = mem_write m base (ntake k (k_src s))
+            /\ k_sink s' = k_sink s
+  else k_sink s' = k_sink s ++ mem_read m base k /\ m' = m /\ k_src s' = k_src s.
+
+Lemma Moved_refl rd s m base : Moved rd s m base 0 s m.
+Proof.
+  destruct rd; cbn [Moved].
+  - rewrite ndrop_0, ntake_0, mem_write_nil. repeat split; try reflexivity. lia.
+  - unfold mem_read. rewrite ntake_0, app_nil_r. auto.
+Qed.
+Lemma Moved_same rd s m base s' : k_src s' = k_src s -> k_sink s' = k_sink s -> Moved rd s m base 0 s' m.
+Proof.
+  intros H1 H2. destruct rd; cbn [Moved].
+  - rewrite ndrop_0, ntake_0, mem_write_nil. repeat split; auto. lia.
+  - unfold mem_read. rewrite ntake_0, app_nil_r. auto.
+Qed.
+Lemma mem_read_app m base k1 k2 : mem_read m base (k1 + k2) = mem_read m base k1 ++ mem_read m (base + k1) k2.
+Proof. unfold mem_read. rewrite ntake_app_ndrop, ndrop_ndrop. reflexivity. Qed.
+Lemma ntake_min_len {A} a (l : list A) : ntake (N.min a (nlen l)) l = ntake a l.
+Proof.
+  destruct (N.le_ge_cases a (nlen l)) as [H|H].
+  - rewrite N.min_l by lia. reflexivity.
+  - rewrite N.min_r by lia. rewrite !ntake_all by lia. reflexivity.
+Qed.
+Lemma Moved_trans rd s m base k1 s1 m1 k2 s2 m2 : base + k1 + k2 <= nlen m ->
+  Moved rd s m base k1 s1 m1 -> Moved rd s1 m1 (base + k1) k2 s2 m2 -> Moved rd s m base (k1 + k2) s2 m2.
+Proof.
+  intros Hb. destruct rd; cbn [Moved].
+  - intros (A1 & A2 & A3 & A4) (B1 & B2 & B3 & B4). rewrite A1 in B1, B2, B3. rewrite nlen_ndrop in B2.
+    repeat split.
+    + rewrite B1, ndrop_ndrop. reflexivity.
+    + lia.
+    + rewrite B3, A3. rewrite ntake_app_ndrop.
+      replace (base + k1) with (base + nlen (ntake k1 (k_src s))) by (rewrite nlen_ntake; lia).
+      apply mem_write_app. rewrite nlen_ntake. lia.
+    + congruence.
+  - intros (A1 & A2 & A3) (B1 & B2 & B3). subst m1 m2. repeat split; try congruence.
+    rewrite B1, A1, mem_read_app, app_assoc. reflexivity.
+Qed.
+
+(* ------------------------------------------------------------------ 3. calls and loops *)
+Definition in_bounds (v : vslice) (m : list N) : Prop := vs_off v + vs_len v <= nlen m.
+
+Lemma call_spec rd s m v : in_bounds v m ->
+  exists s' m' r, callb rd s m v = Val ((s', m'), r)
+    /\ k_done s' = k_done s ++ [next_beh s] /\ k_script s' = tl (k_script s)
+    /\ (forall sc, LogInv sc s -> LogInv sc s')
+    /\ match next_beh s with
+       | Eintr => r = Err (VIo EInterrupted) /\ Moved rd s m (vs_off v) 0 s' m'
+       | HardErr => r = Err (VIo EOther) /\ Moved rd s m (vs_off v) 0 s' m'
+       | b => exists k, r = Ok k /\ k <= vs_len v /\ Moved rd s m (vs_off v) k s' m'
+                        /\ (0 < k -> k_script s <> [])
+       end.
+Proof.
+  intros Hb. unfold callb.
+  assert (Hz : forall k, 0 < k -> k <= amount (next_beh s) (vs_len v) -> next_beh s <> Zero -> k_script s <> []).
+  { intros k Hk Hle Hn E. unfold next_beh in *. rewrite E in *. cbn [hd] in *. congruence. }
+  destruct rd.
+  - unfold sr_call. destruct (next_beh s) eqn:E;
+      (eexists; eexists; eexists; split; [reflexivity|]; cbn [k_done k_script advance];
+       rewrite ?E; split; [reflexivity|]; split; [reflexivity|]; split; [intros sc; apply LogInv_advance|]).
+    1,2,3: (eexists; split; [reflexivity|]; rewrite nlen_ntake; split;
+            [pose proof (amount_le_lemma (next_beh s) (vs_len v)) as Ha; rewrite E in Ha; lia|]; split;
+            [cbn [Moved advance k_src k_sink]; rewrite ntake_min_len; repeat split; lia|]).
+    + intros Hk. unfold next_beh in E. destruct (k_script s); [discriminate|discriminate].
+    + intros Hk. unfold next_beh in E. destruct (k_script s); [discriminate|discriminate].
+    + cbn [amount]. rewrite N.min_0_l. lia.
+    + split; [reflexivity|]. apply Moved_same; reflexivity.
+    + split; [reflexivity|]. apply Moved_same; reflexivity.
+  - unfold sw_call. destruct (next_beh s) eqn:E;
+      (eexists; eexists; eexists; split; [reflexivity|]; cbn [k_done k_script advance];
+       rewrite ?E; split; [reflexivity|]; split; [reflexivity|]; split; [intros sc; apply LogInv_advance|]).
+    1,2,3: (eexists; split; [reflexivity|]; split;
+            [pose proof (amount_le_lemma (next_beh s) (vs_len v)) as Ha; rewrite E in Ha; exact Ha|]; split;
+            [cbn [Moved advance k_src k_sink]; repeat split|]).
+    + intros Hk. unfold next_beh in E. destruct (k_script s); discriminate.
+    + intros Hk. unfold next_beh in E. destruct (k_script s); discriminate.
+    + cbn [amount]. lia.
+    + split; [reflexivity|]. apply Moved_same; reflexivity.
+    + split; [reflexivity|]. apply Moved_same; reflexivity.
+Qed.
+
+Lemma Moved_zero_mem rd s m base s' m' : Moved rd s m base 0 s' m' -> m' = m.
+Proof.
+  destruct rd; cbn [Moved].
+  - intros (_ & _ & H & _). rewrite ntake_0, mem_write_nil in H. exact H.
+  - intros (_ & H & _). exact H.
+Qed.
+Lemma Moved_len rd s m base k s' m' : base + k <= nlen m -> Moved rd s m base k s' m' -> nlen m' = nlen m.
+Proof.
+  intros Hb. destruct rd; cbn [Moved].
+  - intros (_ & Hk & H & _). subst m'. apply mem_write_length. rewrite nlen_ntake. lia.
+  - intros (_ & H & _). subst. reflexivity.
+Qed.
+
+Lemma retry_spec rd : forall fuel s m v, (length (k_script s) < fuel)%nat -> in_bounds v m ->
+  exists s' m' r j b k, retry_eintr fuel (callb rd) s m v = Val ((s', m'), r)
+    /\ k_done s' = k_done s ++ repeat Eintr j ++ [b] /\ is_eintr b = false
+    /\ (length (k_script s') <= length (k_script s))%nat
+    /\ (forall sc, LogInv sc s -> LogInv sc s')
+    /\ Moved rd s m (vs_off v) k s' m' /\ k <= vs_len v
+    /\ (0 < k -> (length (k_script s') < length (k_script s))%nat)
+    /\ ((is_hard b = true /\ r = Err (VIo EOther) /\ k = 0) \/ (is_hard b = false /\ r = Ok k)).
+Proof.
+  induction fuel as [|f IH]; intros s m v Hf Hb; [lia|].
+  cbn [retry_eintr].
+  destruct (call_spec rd s m v Hb) as (s1 & m1 & r1 & Hc & Hd & Hs & Hl & Hcase).
+  rewrite Hc. cbn [bind].
+  assert (Hlen : (length (k_script s1) <= length (k_script s))%nat).
+  { rewrite Hs. destruct (k_script s); cbn [tl length]; lia. }
+  destruct (next_beh s) eqn:E.
+  - (* Full *) destruct Hcase as (k & -> & Hk & HM & Hne).
+    exists s1, m1, (Ok k), 0%nat, Full, k. cbn [repeat app]. repeat split; auto.
+    intros Hk0. apply Hne in Hk0. rewrite Hs. destruct (k_script s); [congruence|cbn [tl length]; lia].
+  - (* Short *) destruct Hcase as (k' & -> & Hk & HM & Hne).
+    exists s1, m1, (Ok k'), 0%nat, (Short k), k'. cbn [repeat app]. repeat split; auto.
+    intros Hk0. apply Hne in Hk0. rewrite Hs. destruct (k_script s); [congruence|cbn [tl length]; lia].
+  - (* Zero *) destruct Hcase as (k & -> & Hk & HM & Hne).
+    exists s1, m1, (Ok k), 0%nat, Zero, k. cbn [repeat app]. repeat split; auto.
+    intros Hk0. apply Hne in Hk0. rewrite Hs. destruct (k_script s); [congruence|cbn [tl length]; lia].
+  - (* Eintr: retried *) destruct Hcase as (-> & HM).
+    assert (Hm1 : m1 = m) by (eapply Moved_zero_mem; exact HM). subst m1.
+    assert (Hne : k_script s <> []).
+    { intros E0. unfold next_beh in E. rewrite E0 in E. discriminate. }
+    assert (Hf1 : (length (k_script s1) < f)%nat).
+    { rewrite Hs. destruct (k_script s); [congruence|cbn [tl length] in *; lia]. }
+    destruct (IH s1 m v Hf1 Hb) as (s2 & m2 & r2 & j & b & k & Hr & Hd2 & Hb2 & Hl2 & Hli2 & HM2 & Hk2 & Hp2 & Hres).
+    exists s2, m2, r2, (S j), b, k. split; [exact Hr|]. split.
+    { rewrite Hd2, Hd. rewrite <- app_assoc. reflexivity. }
+    split; [exact Hb2|]. split; [lia|]. split; [auto|]. split.
+    { replace k with (0 + k) by lia. eapply Moved_trans; [|exact HM|rewrite N.add_0_r; exact HM2].
+      unfold in_bounds in Hb. lia. }
+    split; [exact Hk2|]. split; [intros Hk0; specialize (Hp2 Hk0); lia|]. exact Hres.
+  - (* HardErr *) destruct Hcase as (-> & HM).
+    exists s1, m1, (Err (VIo EOther)), 0%nat, HardErr, 0. cbn [repeat app]. repeat split; auto; try lia.
+Qed.
+
+Lemma vs_offset_ok v n : vs_addr v + vs_len v < W64 -> n <= vs_len v ->
+  vs_offset v n = Ok {| vs_addr := vs_addr v + n; vs_off := vs_off v + n; vs_len := vs_len v - n |}.
+Proof.
+  intros Ha Hn. unfold vs_offset, checked_add, checked_sub.
+  destruct (N.ltb_spec (vs_addr v + n) W64); [|lia]. destruct (N.leb_spec n (vs_len v)); [|lia]. reflexivity.
+Qed.
+Lemma vs_offset_err v n : vs_len v < n -> exists e, vs_offset v n = Err e /\ (e = VOutOfBounds \/ e = VOverflow).
+Proof.
+  intros Hn. unfold vs_offset, checked_add, checked_sub.
+  destruct (N.ltb_spec (vs_addr v + n) W64); [|eauto]. destruct (N.leb_spec n (vs_len v)); [lia|eauto].
+Qed.
+
+Lemma exact_loop_spec rd zerr fi : forall fuel s m pb,
+  (length (k_script s) < fuel)%nat -> (length (k_script s) < fi)%nat -> in_bounds pb m ->
+  vs_addr pb + vs_len pb < W64 -> Clean (k_done s) ->
+  exists s' m' r k, exact_loop zerr fi fuel (callb rd) s m pb = Val ((s', m'), r)
+    /\ Moved rd s m (vs_off pb) k s' m' /\ k <= vs_len pb
+    /\ (length (k_script s') <= length (k_script s))%nat
+    /\ (0 < k -> (length (k_script s') < length (k_script s))%nat)
+    /\ (forall sc, LogInv sc s -> LogInv sc s')
+    /\ ((r = Ok tt /\ k = vs_len pb /\ Clean (k_done s'))
+        \/ (r = Err (VIo zerr) /\ k < vs_len pb /\ Clean (k_done s'))
+        \/ (r = Err (VIo EOther) /\ k < vs_len pb /\ HardEnd (k_done s'))).
+Proof.
+  induction fuel as [|f IH]; intros s m pb Hf Hfi Hb Ha Hc; [lia|].
+  cbn [exact_loop]. destruct (N.eqb_spec (vs_len pb) 0) as [Hz|Hz].
+  - exists s, m, (Ok tt), 0. split; [reflexivity|]. split; [apply Moved_refl|]. split; [lia|].
+    split; [lia|]. split; [lia|]. split; [auto|]. left. auto.
+  - destruct (retry_spec rd fi s m pb Hfi Hb)
+      as (s1 & m1 & r1 & j & b & k & Hr & Hd & Hbe & Hl & Hli & HM & Hk & Hp & Hres).
+    rewrite Hr. cbn [bind].
+    destruct Hres as [(Hh & -> & ->)|(Hh & ->)].
+    + (* hard error *)
+      exists s1, m1, (Err (VIo EOther)), 0. split; [reflexivity|]. split; [exact HM|]. split; [lia|].
+      split; [exact Hl|]. split; [lia|]. split; [exact Hli|]. right. right. split; [reflexivity|]. split; [lia|].
+      rewrite Hd. destruct b; try discriminate. apply HardEnd_step. exact Hc.
+    + assert (Hc1 : Clean (k_done s1)) by (rewrite Hd; apply Clean_step; assumption).
+      destruct (N.eqb_spec k 0) as [Hk0|Hk0].
+      * subst k. exists s1, m1, (Err (VIo zerr)), 0. split; [reflexivity|]. split; [exact HM|]. split; [lia|].
+        split; [exact Hl|]. split; [lia|]. split; [exact Hli|]. right. left. split; [reflexivity|]. split; [lia|]. exact Hc1.
+      * rewrite (vs_offset_ok pb k Ha Hk).
+        assert (Hlm : nlen m1 = nlen m) by (eapply Moved_len; [|exact HM]; unfold in_bounds in Hb; lia).
+        set (pb' := {| vs_addr := vs_addr pb + k; vs_off := vs_off pb + k; vs_len := vs_len pb - k |}).
+        assert (Hlt : (length (k_script s1) < length (k_script s))%nat) by (apply Hp; lia).
+        destruct (IH s1 m1 pb') as (s2 & m2 & r2 & k2 & He & HM2 & Hk2 & Hl2 & Hp2 & Hli2 & Hres2).
+        { lia. } { lia. }
+        { unfold in_bounds, pb' in *. cbn [vs_off vs_len]. lia. }
+        { unfold pb'. cbn [vs_addr vs_len]. lia. }
+        { exact Hc1. }
+        exists s2, m2, r2, (k + k2). split; [exact He|]. unfold pb' in *. cbn [vs_off vs_len] in *.
+        split. { eapply Moved_trans; [|exact HM|exact HM2]. unfold in_bounds in Hb. lia. }
+        split; [lia|]. split; [lia|]. split; [lia|]. split; [auto|].
+        destruct Hres2 as [(-> & Hk2e & Hc2)|[(-> & Hk2e & Hc2)|(-> & Hk2e & Hc2)]].
+        -- left. split; [reflexivity|]. split; [lia|exact Hc2].
+        -- right. left. split; [reflexivity|]. split; [lia|exact Hc2].
+        -- right. right. split; [reflexivity|]. split; [lia|exact Hc2].
+Qed.
+
+(* ------------------------------------------------------------------ 4. the address map on runs *)
+(* addresses a .. a+k-1 of the target are the host bytes j .. j+k-1 *)
+Definition Run (t : target) (m : list N) (a j k : N) : Prop :=
+  (forall i, i < k -> idx_of t (a + i) = Some (j + i)) /\ j + k <= nlen m.
+
+Lemma flat_write_run t : forall bs m a j, Run t m a j (nlen bs) -> flat_write t m a bs = Some (mem_write m j bs).
+Proof.
+  induction bs as [|b rest IH]; intros m a j [Hi Hb].
+  - cbn [flat_write]. rewrite mem_write_nil. reflexivity.
+  - rewrite nlen_cons in *. cbn [flat_write].
+    assert (H0 : idx_of t a = Some j).
+    { specialize (Hi 0). rewrite !N.add_0_r in Hi. apply Hi. lia. }
+    rewrite H0. destruct (N.ltb_spec j (nlen m)); [|lia].
+    assert (Hl : nlen (mem_write m j [b]) = nlen m) by (apply mem_write_length; cbn; lia).
+    rewrite (IH _ (a + 1) (j + 1)).
+    + f_equal. replace (j + 1) with (j + nlen [b]) by (cbn; lia).
+      rewrite mem_write_app by (cbn; lia). reflexivity.
+    + split; [|lia]. intros i Hlt. specialize (Hi (1 + i)).
+      replace (a + 1 + i) with (a + (1 + i)) by lia. replace (j + 1 + i) with (j + (1 + i)) by lia. apply Hi. lia.
+Qed.
+Lemma flat_write_app t : forall xs ys m a,
+  flat_write t m a (xs ++ ys) =
+  match flat_write t m a xs with Some m1 => flat_write t m1 (a + nlen xs) ys | None => None end.
+Proof.
+  induction xs as [|x xs IH]; intros ys m a.
+  - cbn [app flat_write nlen length]. rewrite N.add_0_r. reflexivity.
+  - cbn [app flat_write]. destruct (idx_of t a) as [j|]; [|reflexivity].
+    destruct (j <? nlen m); [|reflexivity]. rewrite IH. rewrite nlen_cons.
+    replace (a + 1 + nlen xs) with (a + (1 + nlen xs)) by lia. reflexivity.
+Qed.
+Lemma mem_read_one m j b : nth_error m (N.to_nat j) = Some b -> mem_read m j 1 = [b].
+Proof.
+  intros H. unfold mem_read, ntake, ndrop.
+  assert (E : nth_error (skipn (N.to_nat j) m) 0 = Some b) by (rewrite nth_error_skipn_c, Nat.add_0_r; exact H).
+  destruct (skipn (N.to_nat j) m) as [|x r]; [discriminate|]. cbn in E. inversion E. reflexivity.
+Qed.
+Lemma flat_read_run t m : forall n a j, Run t m a j (N.of_nat n) -> flat_read t m a n = Some (mem_read m j (N.of_nat n)).
+Proof.
+  induction n as [|n IH]; intros a j [Hi Hb].
+  - reflexivity.
+  - cbn [flat_read].
+    assert (H0 : idx_of t a = Some j).
+    { specialize (Hi 0). rewrite !N.add_0_r in Hi. apply Hi. lia. }
+    rewrite H0.
+    destruct (nth_error m (N.to_nat j)) as [b|] eqn:E.
+    2:{ apply nth_error_None in E. unfold nlen in Hb. lia. }
+    rewrite (IH (a + 1) (j + 1)).
+    + f_equal. replace (N.of_nat (S n)) with (1 + N.of_nat n) by lia.
+      rewrite mem_read_app, (mem_read_one _ _ _ E). reflexivity.
+    + split; [|lia]. intros i Hlt. specialize (Hi (1 + i)).
+      replace (a + 1 + i) with (a + (1 + i)) by lia. replace (j + 1 + i) with (j + (1 + i)) by lia. apply Hi. lia.
+Qed.
+Lemma flat_read_app t m : forall n1 n2 a,
+  flat_read t m a (n1 + n2) =
+  match flat_read t m a n1, flat_read t m (a + N.of_nat n1) n2 with
+  | Some x, Some y => Some (x ++ y) | _, _ => None end.
+Proof.
+  induction n1 as [|n1 IH]; intros n2 a.
+  - cbn [Nat.add flat_read app]. rewrite N.add_0_r. destruct (flat_read t m a n2); reflexivity.
+  - cbn [Nat.add flat_read]. destruct (idx_of t a) as [j|]; [|reflexivity].
+    destruct (nth_error m (N.to_nat j)) as [b|]; [|reflexivity].
+    rewrite IH. replace (a + 1 + N.of_nat n1) with (a + N.of_nat (S n1)) by lia.
+    destruct (flat_read t m (a + 1) n1); [|reflexivity].
+    destruct (flat_read t m (a + N.of_nat (S n1)) n2); reflexivity.
+Qed.
+Lemma flat_read_length t m : forall n a l, flat_read t m a n = Some l -> length l = n.
+Proof.
+  induction n as [|n IH]; intros a l H; cbn [flat_read] in H.
+  - inversion H. reflexivity.
+  - destruct (idx_of t a); [|discriminate]. destruct (nth_error m (N.to_nat n0)); [|discriminate].
+    destruct (flat_read t m (a + 1) n) eqn:E; [|discriminate]. inversion H. cbn [length]. f_equal. eapply IH. exact E.
+Qed.
+
+(* k bytes went from the reader to target addresses a.. (rd) / from there to the writer *)
+Definition GMoved (rd : bool) (t : target) (s : sstream) (m : list N) (a k : N) (s' : sstream) (m' : list N) : Prop :=
+  if rd then k_src s' = ndrop k (k_src s) /\ k <= nlen (k_src s)
+            /\ flat_write t m a (ntake k (k_src s)) = Some m' /\ k_sink s' = k_sink s
+  else exists bs, flat_read t m a (N.to_nat k) = Some bs /\ k_sink s' = k_sink s ++ bs /\ m' = m /\ k_src s' = k_src s.
+
+Lemma Moved_GMoved rd t s m a j k s' m' : Run t m a j k -> Moved rd s m j k s' m' -> GMoved rd t s m a k s' m'.
+Proof.
+  intros HR. destruct rd; cbn [Moved GMoved].
+  - intros (A1 & A2 & A3 & A4). repeat split; auto. subst m'. apply flat_write_run.
+    rewrite nlen_ntake. replace (N.min k (nlen (k_src s))) with k by lia. exact HR.
+  - intros (A1 & A2 & A3). exists (mem_read m j k). repeat split; auto.
+    rewrite <- (N2Nat.id k) at 2. apply flat_read_run. rewrite N2Nat.id. exact HR.
+Qed.
+Lemma GMoved_refl rd t s m a : GMoved rd t s m a 0 s m.
+Proof.
+  destruct rd; cbn [GMoved].
+  - rewrite ndrop_0, ntake_0. cbn [flat_write]. repeat split; auto. lia.
+  - exists []. cbn [N.to_nat flat_read]. rewrite app_nil_r. auto.
+Qed.
+Lemma GMoved_trans rd t s m a k1 s1 m1 k2 s2 m2 :
+  GMoved rd t s m a k1 s1 m1 -> GMoved rd t s1 m1 (a + k1) k2 s2 m2 -> GMoved rd t s m a (k1 + k2) s2 m2.
+Proof.
+  destruct rd; cbn [GMoved].
+  - intros (A1 & A2 & A3 & A4) (B1 & B2 & B3 & B4). rewrite A1 in B1, B2, B3. rewrite nlen_ndrop in B2.
+    repeat split.
+    + rewrite B1, ndrop_ndrop. reflexivity.
+    + lia.
+    + rewrite ntake_app_ndrop, flat_write_app, A3. rewrite nlen_ntake.
+      replace (N.min k1 (nlen (k_src s))) with k1 by lia. exact B3.
+    + congruence.
+  - intros (b1 & A1 & A2 & A3 & A4) (b2 & B1 & B2 & B3 & B4). subst m1 m2.
+    exists (b1 ++ b2). repeat split; try congruence.
+    + rewrite N2Nat.inj_add, flat_read_app, A1. rewrite N2Nat.id, B1. reflexivity.
+    + rewrite B2, A2, app_assoc. reflexivity.
+Qed.
+
+(* ------------------------------------------------------------------ 5a. slices and regions *)
+Definition judged (t : target) (addr count : N) : Prop := 0 < count \/ idx_of t addr <> None.
+Definition rk_of (rc : N * N * N) : N := fst (fst rc).
+(* what the checker demands, as a proposition about the final state of the model *)
+Definition Post (rd exact : bool) (t : target) (addr count : N) (s0 : sstream) (m0 : list N)
+  (s' : sstream) (m' : list N) (rc : N * N * N) : Prop :=
+  exists k, GMoved rd t s0 m0 addr k s' m' /\ LogRes (k_done s') (rk_of rc) /\
+    (if exact then rk_of rc <> 0 /\
+                   (existsb is_hard (k_done s') = false -> judged t addr count -> (rk_of rc = 1 <-> k = count))
+     else rk_of rc <> 1 /\ (rk_of rc = 0 -> snd (fst rc) = k)).
+
+Definition window_of (t : target) (self : vslice) : Prop :=
+  forall a, idx_of t a = if a <? vs_len self then Some (vs_off self + a) else None.
+
+Lemma vs_upto_post (rd : bool) t self fuel s m addr count :
+  window_of t self -> in_bounds self m -> vs_addr self + vs_len self < W64 ->
+  (length (k_script s) < fuel)%nat -> Clean (k_done s) ->
+  exists s' m' r, vs_upto fuel (callb rd) self addr s m count = Val ((s', m'), r)
+    /\ (forall sc, LogInv sc s -> LogInv sc s')
+    /\ Post rd false t addr count s m s' m' (rc_res okc_n r).
+Proof.
+  intros Hw Hb Ha Hf Hc. unfold vs_upto.
+  destruct (N.le_gt_cases addr (vs_len self)) as [Hle|Hgt].
+  - rewrite (vs_offset_ok self addr Ha Hle).
+    set (sl := {| vs_addr := vs_addr self + addr; vs_off := vs_off self + addr; vs_len := vs_len self - addr |}).
+    set (n := N.min (vs_len sl) count).
+    assert (Hn : n <= vs_len self - addr) by (unfold n, sl; cbn [vs_len]; lia).
+    unfold vs_subslice, checked_add. rewrite N.add_0_l.
+    destruct (N.ltb_spec n W64) as [_|Hbad]; [|lia].
+    destruct (N.ltb_spec (vs_len sl) n) as [Hbad|_]; [unfold sl in Hbad; cbn [vs_len] in Hbad; lia|].
+    set (sl2 := {| vs_addr := vs_addr sl + 0; vs_off := vs_off sl + 0; vs_len := n |}).
+    assert (Hb2 : in_bounds sl2 m).
+    { unfold in_bounds, sl2, sl in *. cbn [vs_off vs_len]. lia. }
+    destruct (retry_spec rd fuel s m sl2 Hf Hb2)
+      as (s1 & m1 & r1 & j & b & k & Hr & Hd & Hbe & Hl & Hli & HM & Hk & Hp & Hres).
+    exists s1, m1, r1. split; [exact Hr|]. split; [exact Hli|].
+    exists k. split.
+    { eapply Moved_GMoved; [|exact HM]. split.
+      - intros i Hi. rewrite Hw. unfold sl2, sl in *. cbn [vs_off vs_len] in *.
+        destruct (N.ltb_spec (addr + i) (vs_len self)); [f_equal; lia|lia].
+      - unfold in_bounds, sl2, sl in *. cbn [vs_off vs_len] in *. lia. }
+    destruct Hres as [(Hh & -> & ->)|(Hh & ->)].
+    + cbn [rc_res rk_of fst snd rc_io]. split.
+      * apply LogRes_hard. rewrite Hd. destruct b; try discriminate. apply HardEnd_step. exact Hc.
+      * split; [lia|intros; lia].
+    + cbn [rc_res rk_of fst snd okc_n]. split.
+      * apply LogRes_clean; [|lia|lia]. rewrite Hd. apply Clean_step; assumption.
+      * split; [lia|reflexivity].
+  - destruct (vs_offset_err self addr Hgt) as (e & -> & He).
+    exists s, m, (Err e). split; [reflexivity|]. split; [auto|].
+    exists 0. split; [apply GMoved_refl|].
+    assert (E : rc_res okc_n (@Err N e) = (6, 0, 0)) by (destruct He; subst; reflexivity).
+    rewrite E. cbn [rk_of fst snd]. split; [apply LogRes_clean; [exact Hc|lia|lia]|]. split; [lia|intros; lia].
+Qed.
+
+Lemma vs_exact_post (rd : bool) t self fuel s m addr count :
+  window_of t self -> in_bounds self m -> vs_addr self + vs_len self < W64 ->
+  (length (k_script s) < fuel)%nat -> Clean (k_done s) -> addr < W64 -> count < W64 ->
+  exists s' m' r, vs_exact (if rd then EUnexpectedEof else EWriteZero) fuel (callb rd) self addr s m count = Val ((s', m'), r)
+    /\ (forall sc, LogInv sc s -> LogInv sc s')
+    /\ Post rd true t addr count s m s' m' (rc_res okc_u r).
+Proof.
+  intros Hw Hb Ha Hf Hc Haddr Hcount. unfold vs_exact, vs_subslice, checked_add.
+  assert (Hnj : vs_len self < addr + count -> judged t addr count -> 0 <> count).
+  { intros Hlt [Hj|Hj]; [lia|]. rewrite Hw in Hj. destruct (N.ltb_spec addr (vs_len self)); [lia|congruence]. }
+  destruct (N.ltb_spec (addr + count) W64) as [Hfit|Hovf].
+  - destruct (N.ltb_spec (vs_len self) (addr + count)) as [Hout|Hin].
+    + exists s, m, (Err VOutOfBounds). split; [reflexivity|]. split; [auto|].
+      exists 0. split; [apply GMoved_refl|]. cbn [rc_res rk_of fst snd].
+      split; [apply LogRes_clean; [exact Hc|lia|lia]|]. split; [lia|].
+      intros _ Hj. split; [lia|]. intros E. exfalso. apply (Hnj Hout Hj). exact E.
+    + set (sl := {| vs_addr := vs_addr self + addr; vs_off := vs_off self + addr; vs_len := count |}).
+      unfold exact_volatile.
+      rewrite (vs_offset_ok sl 0) by (unfold sl; cbn [vs_addr vs_len]; lia).
+      set (pb := {| vs_addr := vs_addr sl + 0; vs_off := vs_off sl + 0; vs_len := vs_len sl - 0 |}).
+      destruct (exact_loop_spec rd (if rd then EUnexpectedEof else EWriteZero) fuel fuel s m pb)
+        as (s1 & m1 & r1 & k & He & HM & Hk & Hl & Hp & Hli & Hres); auto.
+      { unfold in_bounds, pb, sl in *. cbn [vs_off vs_len]. lia. }
+      { unfold pb, sl. cbn [vs_addr vs_len]. lia. }
+      exists s1, m1, r1. split; [exact He|]. split; [exact Hli|].
+      exists k. split.
+      { eapply Moved_GMoved; [|exact HM]. unfold pb, sl in *. cbn [vs_off vs_len] in *. split.
+        - intros i Hi. rewrite Hw. destruct (N.ltb_spec (addr + i) (vs_len self)); [f_equal; lia|lia].
+        - unfold in_bounds in Hb. lia. }
+      unfold pb, sl in Hk, Hres. cbn [vs_len] in Hk, Hres.
+      destruct Hres as [(-> & Hke & Hc1)|[(-> & Hke & Hc1)|(-> & Hke & Hc1)]].
+      * cbn [rc_res rk_of fst snd okc_u]. split; [apply LogRes_clean; [exact Hc1|lia|lia]|]. split; [lia|].
+        intros _ _. split; [lia|reflexivity].
+      * assert (E : rk_of (rc_res okc_u (@Err unit (VIo (if rd then EUnexpectedEof else EWriteZero)))) = (if rd then 2 else 3))
+          by (destruct rd; reflexivity).
+        rewrite E. split; [apply LogRes_clean; [exact Hc1|destruct rd; lia|destruct rd; lia]|].
+        split; [destruct rd; lia|]. intros _ _. split; [destruct rd; lia|lia].
+      * cbn [rc_res rk_of fst snd rc_io]. split; [apply LogRes_hard; exact Hc1|]. split; [lia|].
+        intros Hh. exfalso. destruct Hc1 as [H1 _]. clear - H1 Hh.
+        destruct (k_done s1) as [|x d] using rev_ind; [discriminate|]. rewrite last_snoc in H1.
+        rewrite existsb_app in Hh. cbn [existsb] in Hh. rewrite H1, orb_true_r in Hh. discriminate.
+  - exists s, m, (Err VOverflow). split; [reflexivity|]. split; [auto|].
+    exists 0. split; [apply GMoved_refl|]. cbn [rc_res rk_of fst snd].
+    split; [apply LogRes_clean; [exact Hc|lia|lia]|]. split; [lia|].
+    intros _ Hj. split; [lia|]. intros E. exfalso. apply Hnj; [|exact Hj|exact E].
+    unfold in_bounds in Hb. lia.
+Qed.
